@@ -5,6 +5,7 @@
 #endif
 namespace {
    struct Type_check {
+      void generative() { }
       int checks = 0;
       template<class I> void node(const I&) { }
       void operands(bool) { }
